@@ -2,6 +2,7 @@ package main
 
 import (
 	"fmt"
+	"math"
 	"strings"
 	"time"
 
@@ -157,6 +158,11 @@ func runScript(sc *Scenario, ro runOpts) *runResult {
 	}
 	// 2. the simulated run
 	resetGlobals(sc.PeriodNs)
+	if sc.DefaultTimeoutNs > 0 {
+		// an application that lowers the process-wide default: Regexps compiled from here on start with it,
+		// and a MatchTimeout that happens to equal it is still an ordinary timeout
+		regexp2.DefaultMatchTimeout = time.Duration(sc.DefaultTimeoutNs)
+	}
 	res := make([]*regexp2.Regexp, len(sc.Res))
 	for i := range sc.Res {
 		re, err := compileSpec(sc.Res[i])
@@ -221,6 +227,8 @@ func runScript(sc *Scenario, ro runOpts) *runResult {
 					re = res[op.Re]
 				}
 				if re == nil {
+				} else if op.TimeoutNs == -1 && sc.DefaultTimeoutNs > 0 {
+					re.MatchTimeout = time.Duration(math.MaxInt64) // "forever", spelled out: the default is finite in this run
 				} else if op.TimeoutNs == -1 {
 					re.MatchTimeout = regexp2.DefaultMatchTimeout
 				} else if op.TimeoutNs != 0 {
